@@ -3,6 +3,7 @@ package rules
 
 import (
 	"fmt"
+	"regexp"
 	"sort"
 	"strings"
 
@@ -68,3 +69,66 @@ var trustedBase = []string{
 
 // TrustedBase is stated in every evidence file.
 func TrustedBase() []string { return trustedBase }
+
+var regRe = regexp.MustCompile(`%t[0-9]+`)
+
+// stable rewrites SSA register names inside an access path into position-free descriptions of the producing
+// instruction, so that obligation keys survive unrelated edits of the function.
+func (c *Ctx) stable(fn *ssa.Function, path string) string {
+	if !strings.Contains(path, "%t") {
+		return path
+	}
+	return regRe.ReplaceAllStringFunc(path, func(reg string) string {
+		name := reg[1:]
+		for _, b := range fn.Blocks {
+			for _, in := range b.Instrs {
+				if v, ok := in.(ssa.Value); ok && v.Name() == name {
+					return "<" + c.valueDesc(v, 0) + ">"
+				}
+			}
+		}
+		return reg
+	})
+}
+
+func (c *Ctx) valueDesc(v ssa.Value, depth int) string {
+	if depth > 4 {
+		return typeStr(v.Type())
+	}
+	sub := func(x ssa.Value) string {
+		p := c.M.ValPath(x)
+		if strings.HasPrefix(p, "%") || strings.Contains(p, "%t") {
+			return c.valueDesc(x, depth+1)
+		}
+		return p
+	}
+	switch x := v.(type) {
+	case *ssa.Extract:
+		switch t := x.Tuple.(type) {
+		case *ssa.TypeAssert:
+			return sub(t.X) + ".(" + typeStr(t.AssertedType) + ")"
+		case *ssa.Lookup:
+			return sub(t.X) + "[" + sub(t.Index) + "]"
+		case *ssa.Call:
+			return "result#" + string(rune('0'+x.Index)) + " of " + c.callDesc(t)
+		case *ssa.Next:
+			if x.Index == 1 {
+				return "range key"
+			}
+			return "range value"
+		}
+	case *ssa.TypeAssert:
+		return sub(x.X) + ".(" + typeStr(x.AssertedType) + ")"
+	case *ssa.Lookup:
+		return sub(x.X) + "[" + sub(x.Index) + "]"
+	case *ssa.Call:
+		return "result of " + c.callDesc(x)
+	case *ssa.Phi:
+		return "phi " + typeStr(x.Type())
+	case *ssa.MakeInterface:
+		return sub(x.X)
+	case *ssa.UnOp:
+		return x.Op.String() + sub(x.X)
+	}
+	return typeStr(v.Type()) + " value"
+}
